@@ -370,3 +370,48 @@ def proof_broken(chk: Check) -> list[str]:
     if b is None:
         return ['lean build not run']
     return list(b.failed)
+
+
+# ---------------------------------------------------------------------------
+# Real-process runs (each in its own sub-process, wall-clock bounded)
+# ---------------------------------------------------------------------------
+
+def _one_real(args: tuple) -> dict:
+    import shutil
+    import tempfile
+    spec, hard_timeout = args
+    tmp = tempfile.mkdtemp(prefix='nlv-real-')
+    try:
+        spec = dict(spec, tmpdir=tmp)
+        sp = Path(tmp) / 'spec.json'
+        op = Path(tmp) / 'out.json'
+        sp.write_text(json.dumps(spec))
+        env = dict(os.environ)
+        env['PYTHONPATH'] = f'{VERIF}:' + env.get('PYTHONPATH', '')
+        if spec.get('probe'):
+            env['PYTHONPATH'] = f'{VERIF}/harness/probes:' + env['PYTHONPATH']
+            env['NLV_PROBE'] = tmp
+        if spec.get('switchinterval'):
+            env['NLV_SWITCHINTERVAL'] = str(spec['switchinterval'])
+        t0 = time.time()
+        try:
+            p = subprocess.run(['/venv/bin/python', '-m', 'harness.realrun', str(sp), str(op)], cwd=tmp, env=env,
+                               stdout=subprocess.PIPE, stderr=subprocess.PIPE, text=True, timeout=hard_timeout)
+            rc, out, err = p.returncode, p.stdout, p.stderr
+        except subprocess.TimeoutExpired as e:
+            rc, out, err = -999, (e.stdout or b'').decode() if isinstance(e.stdout, bytes) else (e.stdout or ''), 'HARD-TIMEOUT'
+            subprocess.run(['pkill', '-9', '-f', str(sp)], check=False)
+        rec = json.loads(op.read_text()) if op.exists() else None
+        child_log = []
+        for f in sorted(Path(tmp).glob('probe-*.jsonl')):
+            child_log += [json.loads(l) for l in f.read_text().splitlines() if l.strip()]
+        return {'spec': spec, 'rec': rec, 'rc': rc, 'real_stdout': out, 'stderr': err[-2000:],
+                'child_log': child_log, 'wall_s': round(time.time() - t0, 2)}
+    finally:
+        shutil.rmtree(tmp, ignore_errors=True)
+
+
+def real_runs(specs: list[dict], jobs: int = 12, hard_timeout: int = 90) -> list[dict]:
+    from concurrent.futures import ThreadPoolExecutor
+    with ThreadPoolExecutor(max_workers=jobs) as ex:
+        return list(ex.map(_one_real, [(s, hard_timeout) for s in specs]))
